@@ -113,7 +113,8 @@ pub fn make_session(keys: &crate::refcodec::SessionKeys, fcnt_up: u32, fcnt_down
         Some(n) => serde_json::json!(n),
         None => serde_json::Value::Null,
     };
-    serde_json::from_value(v).expect("patched session deserialises")
+    // through the text form: the entry point every application uses
+    serde_json::from_str(&serde_json::to_string(&v).expect("value serialises")).expect("patched session deserialises")
 }
 
 /// Deserialise a stored session; a panic inside the deserialiser is reported as `Err("PANIC ...")`.
@@ -162,6 +163,21 @@ pub fn reordered_roundtrip(env: &EnvRef, json: &str) -> Result<(), String> {
     let sorted = serde_json::to_string(&v).unwrap_or_default();
     let mut reversed = String::new();
     to_string_reversed(&v, &mut reversed);
+    // other entry points of the same deserialiser: a byte stream (no borrowed strings) and an owned value tree
+    let via_reader = guarded(env, || serde_json::from_reader::<_, Session>(json.as_bytes()));
+    let via_value = guarded(env, || serde_json::from_value::<Session>(v.clone()));
+    for (name, r) in [("read from a byte stream", via_reader), ("read from a value tree", via_value)] {
+        match r {
+            Ok(Ok(s)) => {
+                let again = serde_json::to_string(&s).unwrap_or_default();
+                if again != json {
+                    return Err(format!("{name}: restored session serialises to {again} instead of {json}"));
+                }
+            }
+            Ok(Err(e)) => return Err(format!("{name}: refused: {e}")),
+            Err(_) => return Err(format!("{name}: the deserialiser panicked")),
+        }
+    }
     for (name, doc) in [("members sorted", sorted), ("members reverse-sorted", reversed)] {
         match parse_session(env, &doc) {
             Ok(s) => {
@@ -238,16 +254,16 @@ impl<RK: crate::stack::StackKind, const P: u8, const G: i8> WorldRadio for crate
     }
 }
 
-type ADev<R, const N: usize> = async_device::Device<R, SimTimer, SimRng, N, 8>;
+type ADev<R, const N: usize, const D: usize> = async_device::Device<R, SimTimer, SimRng, N, D>;
 
-pub struct AsyncDut<R: WorldRadio, const N: usize> {
+pub struct AsyncDut<R: WorldRadio, const N: usize, const D: usize = 8> {
     env: EnvRef,
-    dev: ADev<R, N>,
+    dev: ADev<R, N, D>,
     class_c: bool,
 }
 
-impl<R: WorldRadio, const N: usize> AsyncDut<R, N> {
-    fn build(env: &EnvRef, session: Option<Session>, class_c: bool) -> ADev<R, N> {
+impl<R: WorldRadio, const N: usize, const D: usize> AsyncDut<R, N, D> {
+    fn build(env: &EnvRef, session: Option<Session>, class_c: bool) -> ADev<R, N, D> {
         let cfg = env.borrow().cfg.clone();
         let mut dev = async_device::Device::new_with_session(
             region_config(&cfg),
@@ -285,7 +301,7 @@ impl<R: WorldRadio, const N: usize> AsyncDut<R, N> {
     }
 }
 
-impl<R: WorldRadio, const N: usize> Dut for AsyncDut<R, N> {
+impl<R: WorldRadio, const N: usize, const D: usize> Dut for AsyncDut<R, N, D> {
     fn join(&mut self) -> OpResult {
         let mode = otaa_mode(&self.env.borrow().id);
         let env = self.env.clone();
@@ -413,11 +429,11 @@ fn describe_nb<R: nb_device::radio::PhyRxTx>(r: &Result<nb_device::Response, nb_
     }
 }
 
-type NDev<const P: u8, const G: i8, const N: usize> = nb_device::Device<SimRadio<P, G>, SimRng, N, 8>;
+type NDev<const P: u8, const G: i8, const N: usize, const D: usize> = nb_device::Device<SimRadio<P, G>, SimRng, N, D>;
 
-pub struct NbDut<const P: u8, const G: i8, const N: usize> {
+pub struct NbDut<const P: u8, const G: i8, const N: usize, const D: usize = 8> {
     env: EnvRef,
-    dev: NDev<P, G, N>,
+    dev: NDev<P, G, N, D>,
 }
 
 #[derive(Clone, Copy, PartialEq, Eq, Debug)]
@@ -429,8 +445,8 @@ enum NbStage {
     InRx2,
 }
 
-impl<const P: u8, const G: i8, const N: usize> NbDut<P, G, N> {
-    fn build(env: &EnvRef, session: Option<Session>) -> NDev<P, G, N> {
+impl<const P: u8, const G: i8, const N: usize, const D: usize> NbDut<P, G, N, D> {
+    fn build(env: &EnvRef, session: Option<Session>) -> NDev<P, G, N, D> {
         let cfg = env.borrow().cfg.clone();
         let mut dev = nb_device::Device::new(region_config(&cfg), SimRadio::<P, G>::new(env.clone()), SimRng { env: env.clone() });
         if let Some(s) = session {
@@ -593,7 +609,7 @@ impl<const P: u8, const G: i8, const N: usize> NbDut<P, G, N> {
     }
 }
 
-impl<const P: u8, const G: i8, const N: usize> Dut for NbDut<P, G, N> {
+impl<const P: u8, const G: i8, const N: usize, const D: usize> Dut for NbDut<P, G, N, D> {
     fn join(&mut self) -> OpResult {
         let mode = otaa_mode(&self.env.borrow().id);
         let env = self.env.clone();
@@ -687,13 +703,52 @@ pub fn make_dut(env: &EnvRef) -> Box<dyn Dut> {
     if let (Some(pc), true) = (phy, fe != Frontend::Nb) {
         use crate::stack::{StackRadio, K1261, K1262, K1272, K1276, KWl};
         use physim::rig::ChipKind;
-        env.borrow_mut().device_buf_cap = 255;
-        return match pc.chip {
-            ChipKind::Sx1261 => Box::new(AsyncDut::<StackRadio<K1261, 14, 0>, 256>::new(env)) as Box<dyn Dut>,
-            ChipKind::Sx1262 => Box::new(AsyncDut::<StackRadio<K1262, 14, 0>, 256>::new(env)) as Box<dyn Dut>,
-            ChipKind::Stm32wl => Box::new(AsyncDut::<StackRadio<KWl, 14, 0>, 256>::new(env)) as Box<dyn Dut>,
-            ChipKind::Sx1272 => Box::new(AsyncDut::<StackRadio<K1272, 14, 0>, 256>::new(env)) as Box<dyn Dut>,
-            ChipKind::Sx1276 => Box::new(AsyncDut::<StackRadio<K1276, 14, 0>, 256>::new(env)) as Box<dyn Dut>,
+        // keep in sync with script::BOARDS[1] = (22, 3) and BOARDS[4] = (17, -1): between them requests of
+        // 2..22 dBm, even and odd, reach the PA code of every chip
+        let small = env.borrow().cfg.small_buffer;
+        let (pc, board) = {
+            // normalise the world's copy of the configuration to the device that is really built
+            let mut e = env.borrow_mut();
+            e.device_buf_cap = if small { crate::script::SMALL_N } else { 255 };
+            if e.cfg.board != 4 || small {
+                e.cfg.board = 1;
+            }
+            e.cfg.buffer_ms = None;
+            let mut pc = pc;
+            if small && pc.chip != ChipKind::Sx1262 {
+                pc.chip = ChipKind::Sx1276;
+            }
+            e.cfg.phy = Some(pc);
+            (pc, e.cfg.board)
+        };
+        macro_rules! stack {
+            ($k:ty, $n:expr) => {
+                if board == 4 {
+                    Box::new(AsyncDut::<StackRadio<$k, 17, -1>, $n>::new(env)) as Box<dyn Dut>
+                } else {
+                    Box::new(AsyncDut::<StackRadio<$k, 22, 3>, $n>::new(env)) as Box<dyn Dut>
+                }
+            };
+        }
+        return match (pc.chip, small) {
+            (ChipKind::Sx1262, true) => Box::new(AsyncDut::<StackRadio<K1262, 22, 3>, { crate::script::SMALL_N }>::new(env)) as Box<dyn Dut>,
+            (_, true) => Box::new(AsyncDut::<StackRadio<K1276, 22, 3>, { crate::script::SMALL_N }>::new(env)) as Box<dyn Dut>,
+            (ChipKind::Sx1261, _) => stack!(K1261, 256),
+            (ChipKind::Sx1262, _) => stack!(K1262, 256),
+            (ChipKind::Stm32wl, _) => stack!(KWl, 256),
+            (ChipKind::Sx1272, _) => stack!(K1272, 256),
+            (ChipKind::Sx1276, _) => stack!(K1276, 256),
+        };
+    }
+    // the default downlink queue (one entry) under an application that rarely collects its downlinks (board 0)
+    if env.borrow().cfg.lazy_app {
+        let mut e = env.borrow_mut();
+        e.cfg.board = 0;
+        e.cfg.small_buffer = false;
+        drop(e);
+        return match fe {
+            Frontend::Nb => Box::new(NbDut::<14, 0, 256, 1>::new(env)) as Box<dyn Dut>,
+            _ => Box::new(AsyncDut::<SimRadio<14, 0>, 256, 1>::new(env)) as Box<dyn Dut>,
         };
     }
     // a device whose radio buffer is smaller than the largest frame (board 0)
@@ -710,6 +765,7 @@ pub fn make_dut(env: &EnvRef) -> Box<dyn Dut> {
         0 => mk!(14, 0),
         1 => mk!(22, 3),
         2 => mk!(30, -2),
-        _ => mk!(5, 0),
+        3 => mk!(5, 0),
+        _ => mk!(17, -1),
     }
 }
